@@ -9,6 +9,7 @@
 From Coq Require Import QArith List Lia.
 Require Import SP.Model.Ledger SP.Proofs.LedgerProofs SP.Model.Sched SP.Proofs.SchedInv SP.Proofs.SchedFinal.
 Require Import SP.Model.Alap SP.Proofs.AlapProofs.
+Require Import SP.Model.Ledger SP.Model.SubSlot SP.Proofs.SubSlotProofs.
 Import ListNotations.
 
 Theorem C01_cell : forall G ops, (0 < G)%Q -> Forall (op_ok G) ops -> Ledger.Inv G (run G ops).
@@ -49,3 +50,11 @@ Proof. repeat constructor; cbn; try discriminate. Qed.
 Theorem C01_alap : forall p, NoDup (map key (alap_bookings p)).
 Proof. exact alap_no_double_booking. Qed.
 Print Assumptions C01_alap.
+
+(* ---- second granularity (Model/SubSlot.v: arbitrary efforts, efficiencies and gaps, tasks that begin and end
+   inside slots and share them; one resource per task, no limits), for every well-formed project
+   (wf: slot length > 0, efficiencies > 0, a task with work has a positive effort) *)
+Theorem C01_subslot : forall p, wf p -> forall r s,
+  Ledger.Inv (inject_Z (sp_G p)) (cells (sschedule p) r s).
+Proof. intros p H r s. exact (proj1 (sschedule_inv p H) r s). Qed.
+Print Assumptions C01_subslot.
